@@ -1,4 +1,119 @@
+// Ghost specification shared by all units (DESIGN.md 3).  No repo code here.
 use vstd::prelude::*;
+use vstd::bytes::*;
 verus! {
+
+// ------------------------------------------------------------------------------------ frames
 pub uninterp spec fn crc32_spec(data: Seq<u8>, frame_type: u8) -> u32;
+
+pub open spec fn BLOCK() -> int { 32768 }
+pub open spec fn HDR() -> int { 7 }
+
+pub open spec fn zeros(n: int) -> Seq<u8> { Seq::new(n as nat, |i: int| 0u8) }
+
+/// serialized frame header: crc32 (le) | len (le) | type
+pub open spec fn hdr_bytes(crc: u32, len: u16, ty: u8) -> Seq<u8> {
+    spec_u32_to_le_bytes(crc) + spec_u16_to_le_bytes(len) + seq![ty]
+}
+
+pub open spec fn valid_type(b: u8) -> bool { 1 <= b <= 4 }
+pub open spec fn type_is_first(b: u8) -> bool { b == 1 || b == 2 }
+pub open spec fn type_is_last(b: u8) -> bool { b == 1 || b == 4 }
+
+/// bytes remaining in the block when the stream position is `pos`
+pub open spec fn rem_in_block(pos: int) -> int { BLOCK() - pos % BLOCK() }
+
+/// zero padding written before a frame when fewer than a header remain in the block
+pub open spec fn pad_len(pos: int) -> int { if rem_in_block(pos) < HDR() { rem_in_block(pos) } else { 0 } }
+
+/// largest payload of a frame written at stream position `pos`
+pub open spec fn max_frame_payload(pos: int) -> int {
+    if rem_in_block(pos) >= HDR() { rem_in_block(pos) - HDR() } else { BLOCK() - HDR() }
+}
+
+/// bytes pushed to the block writer by one write_frame at stream position `pos`
+pub open spec fn frame_enc(pos: int, ty: u8, payload: Seq<u8>) -> Seq<u8> {
+    zeros(pad_len(pos)) + hdr_bytes(crc32_spec(payload, ty), payload.len() as u16, ty) + payload
+}
+
+pub open spec fn frame_type_code(first: bool, last: bool) -> u8 {
+    if first && last { 1 } else if first { 2 } else if last { 4 } else { 3 }
+}
+
+/// bytes pushed by write_record for a serialized entry `payload` starting at stream position `pos`
+pub open spec fn enc(pos: int, payload: Seq<u8>, first: bool) -> Seq<u8>
+    decreases payload.len(), (if max_frame_payload(pos) == 0 { 1int } else { 0int }),
+{
+    let avail = max_frame_payload(pos);
+    let n = if avail < payload.len() { avail } else { payload.len() as int };
+    let last = n == payload.len();
+    let f = frame_enc(pos, frame_type_code(first, last), payload.take(n));
+    if pos < 0 { f } else if last { f } else { f + enc(pos + f.len(), payload.skip(n), false) }
+}
+
+// ------------------------------------------------------------------------------------ frame reader
+/// position of a frame reader inside the sequence of blocks
+pub struct RdPos { pub idx: int, pub cursor: int, pub corrupted: bool }
+
+pub enum FStep {
+    /// a CRC-valid frame was delivered
+    Frame { ty: u8, payload: Seq<u8>, next: RdPos },
+    /// damaged frame: reported as Corruption
+    Corrupt { next: RdPos },
+    /// no (more) frame available: reported as NotAvailable
+    End { next: RdPos },
+}
+
+impl FStep {
+    pub open spec fn next(self) -> RdPos {
+        match self { FStep::Frame { next, .. } => next, FStep::Corrupt { next } => next, FStep::End { next } => next }
+    }
+}
+
+/// leave the current block if it is quarantined or has no room for a header; None: no next block
+pub open spec fn skip_step(blocks: Seq<Seq<u8>>, p: RdPos) -> Option<RdPos> {
+    if p.corrupted || BLOCK() - p.cursor < HDR() {
+        if p.idx + 1 < blocks.len() { Some(RdPos { idx: p.idx + 1, cursor: 0, corrupted: false }) } else { None }
+    } else { Some(p) }
+}
+
+/// The frame-level reading rule (C08/C09): what one read of a frame does at position `p`.
+pub open spec fn frame_step(blocks: Seq<Seq<u8>>, p: RdPos) -> FStep {
+    match skip_step(blocks, p) {
+        None => FStep::End { next: p },
+        Some(q) => {
+            let blk = blocks[q.idx];
+            let hb = blk.subrange(q.cursor, q.cursor + HDR());
+            if hb == zeros(HDR()) {
+                FStep::End { next: q }
+            } else if !valid_type(hb[6]) {
+                // undecodable header: quarantine the rest of the block
+                FStep::Corrupt { next: RdPos { corrupted: true, ..q } }
+            } else {
+                let len = spec_u16_from_le_bytes(hb.subrange(4, 6)) as int;
+                let c = q.cursor + HDR();
+                if c + len > BLOCK() {
+                    // frame would cross the block end: quarantine the rest of the block
+                    FStep::Corrupt { next: RdPos { idx: q.idx, cursor: c, corrupted: true } }
+                } else {
+                    let payload = blk.subrange(c, c + len);
+                    let next = RdPos { idx: q.idx, cursor: c + len, corrupted: false };
+                    if crc32_spec(payload, hb[6]) != spec_u32_from_le_bytes(hb.subrange(0, 4)) {
+                        // CRC mismatch: skip exactly this frame, keep the block
+                        FStep::Corrupt { next }
+                    } else {
+                        FStep::Frame { ty: hb[6], payload, next }
+                    }
+                }
+            }
+        }
+    }
+}
+
+/// strict progress of a reader position (lexicographic: block, quarantine flag, cursor)
+pub open spec fn rd_progress(a: RdPos, b: RdPos) -> bool {
+    b.idx > a.idx || (b.idx == a.idx && !a.corrupted && b.corrupted)
+        || (b.idx == a.idx && a.corrupted == b.corrupted && b.cursor > a.cursor)
+}
+
 } // verus!
